@@ -28,7 +28,7 @@ def main():
             # later rounds continue the numbering of what is already stored for the property
             taken = {int(x.name.split("-")[-1]) for x in (VERIF / "seeded").glob(f"{prop}-*") if x.name.split("-")[-1].isdigit()}
             number = int(seed.name.split("_")[-1])
-            if d.name.startswith(("seed2_", "seed3_")):
+            if d.name.startswith(("seed2_", "seed3_", "seed4_")):
                 number = max(taken | {0}) + 1
             name = f"{prop}-{number}"
             dest = VERIF / "seeded" / name
